@@ -33,7 +33,7 @@ for f in sorted(glob.glob(os.path.join(HERE, "evidence", "C*.json"))):
         e = json.load(open(f))
         c = e["coverage"]
         worst = ""
-        wr = c.get("worst_residuals") or {}
+        wr = {k: v for k, v in (c.get("worst_residuals") or {}).items() if "known finding" not in k}
         if wr:
             k = max(wr, key=lambda k: (wr[k]["worst"] / wr[k]["bound"]) if wr[k]["bound"] else 0)
             worst = "%s %.1e / %.0e" % (k[:40], wr[k]["worst"], wr[k]["bound"])
